@@ -143,6 +143,11 @@ pub fn run(reg: &dyn Registry, ctx: &Ctx) -> Outcome {
         // a stuck retry: zero delta at the second measured probe (reading index 5)
         scripts.push((format!("collection rounds={} with stuck retry", rounds), rounds, deviate(&base, &[(5, Dev::Repeat3)])));
     }
+    // collections that contain long runs of stuck measurements (any retry bound)
+    for k in [9usize, 33, 70, 130, 260, 1030] {
+        let base = jitter_env::raw_readings(ctx.seed ^ 0x15BB, 3 * k + 80);
+        scripts.push((format!("collection rounds=2 with {} consecutive stuck measurements", k), 2, jitter_env::with_stuck_run(&base, 5, k, Dev::Repeat3)));
+    }
     let mut maps: Vec<MapSpec> = vec![
         MapSpec { name: "lfsr-fold(pool,time)", f: Box::new(fold), n_in: 128, injective_in: vec![("pool (time fixed)", 0, 64), ("time (pool fixed)", 64, 128)] },
         MapSpec { name: "stir", f: Box::new(stir), n_in: 64, injective_in: vec![("pool", 0, 64)] },
@@ -173,7 +178,35 @@ pub fn run(reg: &dyn Registry, ctx: &Ctx) -> Outcome {
         };
         ctx.add("states", n as u64 + 1);
         ctx.add("basis_executions", n as u64 + 1);
-        let xs = inputs(n, ctx.seed, n == 64 || thorough);
+        let heavy = m.name.contains("consecutive stuck");
+        let mut xs = inputs(n, ctx.seed, (n == 64 && !heavy) || thorough);
+        if heavy && !thorough {
+            xs.truncate(64 + 1 + 2016 + 64 + 1 + 256);
+        }
+        // model-guided inputs: those that the extracted model maps to a special output (zero, all ones, a
+        // zero half, a single bit): what a guard keyed on the *result* of a mixing step would single out
+        {
+            let mut targets: Vec<u64> = jitter_env::SPECIAL_WORDS.to_vec();
+            targets.extend((0..64).map(|i| 1u64 << i));
+            targets.extend((0..64).map(|i| !(1u64 << i)));
+            for (_, lo, hi) in &m.injective_in {
+                let sub = Mat { rows: 64, cols: hi - lo, col: model.mat.col[*lo..*hi].to_vec() };
+                for &y in &targets {
+                    let mut rhs = u64_bits(y);
+                    rhs.xor_assign(&model.c);
+                    if let Some(z) = sub.solve(&rhs) {
+                        let mut x = BitVec::zero(n);
+                        for b in 0..(hi - lo) {
+                            if z.get(b) {
+                                x.set(lo + b, true);
+                            }
+                        }
+                        xs.push(x);
+                    }
+                }
+            }
+            ctx.add("special_output_preimages", (targets.len() * m.injective_in.len()) as u64);
+        }
         let (cnt, bad, kept) = conform_fn(f, &model, &xs);
         ctx.add("conformance_replays", cnt);
         ctx.add("transitions", cnt);
